@@ -355,6 +355,7 @@ class NativeCtx:
         self.sampler = None
         self._pending_kind = None
         self._call_depth = 0
+        self.call_timeout = CALL_TIMEOUT_S
         self._install_helpers()
 
     def _val(self, name, default=None):
@@ -535,12 +536,12 @@ class NativeCtx:
         import signal
 
         def on_alarm(signum, frame):
-            raise Deadlock('native call still blocked after %d s (blocking primitive never released)' % CALL_TIMEOUT_S)
+            raise Deadlock('native call still running after %d s (blocked for ever or endless loop)' % self.call_timeout)
         outermost = self._call_depth == 0
         self._call_depth += 1
         if outermost:
             old = signal.signal(signal.SIGALRM, on_alarm)
-            signal.alarm(CALL_TIMEOUT_S)
+            signal.alarm(self.call_timeout)
         try:
             try:
                 self.ns['result'] = f(*args, **kwargs)
@@ -819,9 +820,15 @@ def run_job(job):
     contracts = {c.name: c for c in api.load(job['prop'])}
     import cflib
     out = {'cflib': cflib.__file__, 'runs': []}
+    failed_contracts = set()
     for item in job['items']:
+        if job.get('stop_on_fail') and item['contract'] in failed_contracts:
+            out['runs'].append({'contract': item['contract'], 'tag': item.get('tag'), 'ensures': [], 'error': 'precondition-not-met: skipped (an earlier sample of this contract already failed)',
+                                'raised': None, 'exc': None, 'result': None, 'trace': [], 'values': {}})
+            continue
         c = contracts[item['contract']]
         ctx = NativeCtx(c, dict(item['values']))
+        ctx.call_timeout = job.get('call_timeout_s', CALL_TIMEOUT_S)
         if item.get('sample_seed') is not None:
             import random
             ctx.sampler = make_sampler(random.Random(item['sample_seed']))
@@ -841,6 +848,8 @@ def run_job(job):
         rec['result'] = _summ(ctx.ns.get('result'))
         rec['trace'] = [_summ(e) for e in ctx.trace[:40]]
         out['runs'].append(rec)
+        if any(e[2] is False for e in rec['ensures']) and not (rec['error'] or '').startswith('precondition-not-met'):
+            failed_contracts.add(c.name)
     return out
 
 
